@@ -1,7 +1,7 @@
 (* C04 — fragmented messages are reassembled in order, undisturbed by control frames. *)
 From Coq Require Import ZArith List.
 From WS Require Import Base.Res Base.Bytes Spec.Frame Spec.Utf8 Spec.Legal Model.Recv Model.Conn
-  Proofs.RecvSpec Proofs.ConnSpec Proofs.ConnProof.
+  Proofs.RecvSpec Proofs.ConnSpec Proofs.ConnProof Base.GenPrelude Spec.Stream Model.Xport Proofs.WsDrainSpec Proofs.WsDrainProof.
 Import ListNotations.
 Open Scope Z_scope.
 
@@ -32,3 +32,80 @@ Example C04_ex :
      [fr 0 1 [72]; fr 1 9 [1]; fr 0 0 []; fr 1 10 []; fr 1 0 [105]; fr 1 2 [0; 255]])
   = [ODeliver 1 1 [72; 105]; ODeliver 2 1 [0; 255]].
 Proof. vm_compute. reflexivity. Qed.
+
+(* END TO END on the connection object.  For EVERY script of server events [l] (data segments cut
+   anywhere, receive timeouts anywhere, end of stream), calling recv_data_frame until the connection
+   is over ([ws_drain], Proofs/WsDrainSpec.v: the caller retries after a timeout) yields exactly
+   [feed_results]: the byte stream is decoded by the RFC stream decoder ([stream_results] over
+   [flatten l], which does not depend on the segmentation) and the frames are folded by the message
+   layer (reassembly, legality, close).  This composes C02/C03 (bytes -> frames) with C04/C05/C06
+   (frames -> observations) through the code's own buffers and state. *)
+Theorem C04_end_to_end : forall fire skip control l ks,
+  script_ok l = true -> no_reset l = true -> bytes_ok (flatten l) -> keys_enough ks l ->
+  fst (ws_drain (drain_fuel l) control (ws_init (mk_xport l) ks fire skip)) =
+  feed_results fire skip control true cf_init
+    (stream_results (code_verdict skip) (drain_fuel l) (flatten l)).
+Proof. exact ws_drain_results. Qed.
+Print Assumptions C04_end_to_end.
+
+(* sanity: a ping split around a timeout, a text frame, a close frame *)
+Example C04_end_to_end_ex :
+  fst (ws_drain 20 true (ws_init (mk_xport [Data [137;1]; Timeout; Data [65;129;1;66]; Data [136;0]])
+                           [[1;2;3;4];[5;6;7;8];[1;1;1;1];[2;2;2;2];[3;3;3;3];[4;4;4;4];[5;5;5;5];[6;6;6;6];[7;7;7;7];[8;8;8;8]] false false))
+  = [ODeliver 9 1 [65]; ODeliver 1 1 [66]; ODeliver 8 1 []; OFail ConnClosed].
+Proof. vm_compute. reflexivity. Qed.
+
+From WS Require Import Gen.GenCont Proofs.ContGen.
+
+(* CODE TIE for the message layer: the reassembly state machine used in every theorem above equals,
+   decision by decision, what is regenerated on every run from continuous_frame.validate / add /
+   is_fire / extract and from the opcode dispatch of WebSocket.recv_data_frame (Gen/GenCont.v; the
+   statement skeletons around the decisions are checked by the translator, fail-closed). *)
+Theorem C04_dispatch_is_the_code : forall fire skip control conn cf f,
+  handle_frame fire skip control conn cf f =
+  let op := a_opcode f in
+  if rdf_is_data op then
+    match cont_validate (c_recving cf) op with
+    | Raise e => {| s_cf := cf; s_writes := []; s_out := Fail e |}
+    | Ok _ =>
+      let cf2 := cf_add cf f in
+      if cont_is_fire (a_fin f) fire then
+        match cf_extract fire skip cf2 f with
+        | (Ok (op0, f'), cf3) => {| s_cf := cf3; s_writes := []; s_out := Return op0 f' |}
+        | (Raise e, cf3) => {| s_cf := cf3; s_writes := []; s_out := Fail e |}
+        end
+      else {| s_cf := cf2; s_writes := []; s_out := Again |}
+    end
+  else if rdf_is_close op then
+    {| s_cf := cf; s_writes := if conn then [WClose] else []; s_out := Return op f |}
+  else if rdf_is_ping op then
+    if rdf_ping_reply_ok (a_data f) then
+      {| s_cf := cf; s_writes := [WPong (a_data f)]; s_out := if control then Return op f else Again |}
+    else {| s_cf := cf; s_writes := []; s_out := Fail Protocol |}
+  else if rdf_is_pong op then
+    {| s_cf := cf; s_writes := []; s_out := if control then Return op f else Again |}
+  else {| s_cf := cf; s_writes := []; s_out := Again |}.
+Proof. exact handle_frame_dispatch. Qed.
+Print Assumptions C04_dispatch_is_the_code.
+
+Theorem C04_add_is_the_code : forall cf f,
+  cf_add cf f =
+  let cf1 := match c_data cf with
+             | Some (op0, d) => {| c_data := Some (op0, d ++ a_data f); c_recving := c_recving cf |}
+             | None => {| c_data := Some (a_opcode f, a_data f);
+                          c_recving := if cont_add_sets_recving (a_opcode f) then a_opcode f else c_recving cf |}
+             end in
+  if cont_add_clears_recving (a_fin f) then {| c_data := c_data cf1; c_recving := 0 |} else cf1.
+Proof. exact cf_add_gen. Qed.
+Print Assumptions C04_add_is_the_code.
+
+Theorem C04_extract_is_the_code : forall fire skip cf f,
+  cf_extract fire skip cf f =
+  match c_data cf with
+  | None => (Raise (Internal TypeErr), cf)
+  | Some (op0, d) =>
+    let cf' := {| c_data := None; c_recving := c_recving cf |} in
+    if cont_extract_rejects fire skip op0 d then (Raise Payload, cf') else (Ok (op0, with_data f d), cf')
+  end.
+Proof. exact cf_extract_gen. Qed.
+Print Assumptions C04_extract_is_the_code.
